@@ -1,10 +1,8 @@
 #!/bin/bash
-# Offline build of the framework: regenerate the Gen/ modules from /repo's current tree, then build the Lean library.
-# A property module that fails to build here is not a setup failure: its check reports it.
-cd "$(dirname "$0")"
-export HITEN_VERIF=1 PYTHONDONTWRITEBYTECODE=1
-/venv/bin/python harness/gen_all.py 2>&1 | grep -v "conda\|WARNING: overwriting"
-cd lean
-lake build HitenModel.Lemmas.REReal 2>&1 | tail -3 || exit 1
+# Offline build of the framework: build the Lean library from files on disk.  The generated modules (lean/HitenModel/Gen/*.lean)
+# are committed as generated from the unchanged tree and are regenerated from /repo's current working tree by every check
+# (`lake` then rebuilds only what changed).  A property module that fails to build here is not a setup failure: its check reports it.
+cd "$(dirname "$0")/lean"
+lake build HitenModel.Lemmas.REReal HitenModel.Lemmas.Trees HitenModel.Lemmas.Symplectic 2>&1 | tail -3 || exit 1
 lake build 2>&1 | grep -v "^warning\|unused\|Hint\|apply\]\|Note:\|^\s*$" | tail -15
 exit 0
